@@ -21,6 +21,7 @@ fn lookup(name: &str) -> Option<Box<dyn Sim>> {
 		"gossipsim" => Some(Box::new(gossipsim::GossipSim)),
 		"persistsim" => Some(Box::new(persistsim::PersistSim)),
 		"blocksyncsim" => Some(Box::new(blocksyncsim::BlockSyncSim)),
+		"blobsim" => Some(Box::new(blobsim::BlobSim)),
 		_ => None,
 	}
 }
